@@ -84,20 +84,20 @@ Section Sim.
 End Sim.
 
 (* ------------------------------------------------------------------ parse() without user functions *)
-Definition nofun (fe : fenv) : Prop := fe_F fe = [] /\ fe_src fe = [] /\ fe_defs fe = [].
+Definition nofun (fe : fenv) : Prop := fe_F fe = [] /\ fe_src fe = [] /\ fe_defs fe = [] /\ fe_err fe = false.
 
 Lemma call_dyn_nofun C declared (sp : fenv * option pmap) G f sg :
   nofun (fst sp) ->
   nofun (fst (fst (call_dyn C declared sp G f sg))) /\
   snd (call_dyn C declared sp G f sg) = resolve_call [] [] f sg.
 Proof.
-  destruct sp as [fe p]. destruct fe as [src F0 al defs calls prim].
-  unfold nofun. cbn [fst fe_F fe_src fe_defs]. intros (HF & Hsrc & Hdefs). subst F0 src defs.
-  unfold call_dyn. cbn [fe_calls fe_src fe_F fe_alias fe_defs fe_primary].
+  destruct sp as [fe p]. destruct fe as [src F0 al defs calls prim err].
+  unfold nofun. cbn [fst fe_F fe_src fe_defs fe_err]. intros (HF & Hsrc & Hdefs & Herr). subst F0 src defs err.
+  unfold call_dyn. cbn [fe_calls fe_src fe_F fe_alias fe_defs fe_primary fe_err].
   match goal with |- context [ensure_variant ?c ?fe1 ?cur f sg] =>
     assert (Eev : ensure_variant c fe1 cur f sg = Some (fe1, p)) end.
   { unfold ensure_variant. cbn [fe_defs fe_alias fe_src tlookup get_or sig_lookup d_promo]. reflexivity. }
-  rewrite Eev. cbn [get_or fst snd fe_F fe_src fe_defs fe_alias].
+  rewrite Eev. cbn [get_or fst snd fe_F fe_src fe_defs fe_alias fe_err].
   split; [repeat split; reflexivity|].
   unfold resolve_call. cbn [tlookup]. reflexivity.
 Qed.
@@ -186,6 +186,7 @@ Proof.
                         (fun s G0 f sg Hs => call_dyn_nofun C decl s G0 f sg Hs) e (fe, promo) G Hnf) as Hsim.
   destruct (infer (fenv * option pmap) (call_dyn C decl) C (fe, promo) G e) as [[[t G1] [fe1 p1]]|]; [|discriminate].
   destruct Hsim as [Hnf1 Hi0]. cbn [fst] in Hnf1.
+  pose proof (proj2 (proj2 (proj2 Hnf1))) as Herr1.
   assert (His : infer_s [] [] C G e = Some (t, G1)) by (unfold infer_s; rewrite Hi0; reflexivity).
   destruct (infer_s_sound _ _ _ _ _ _ _ _ _ Hes Hg His Hev) as [Hr ->].
   assert (Het : ety [] [] C G e = t) by (unfold ety; rewrite His; reflexivity).
@@ -199,7 +200,7 @@ Proof.
                      | TList oe => true && (negb (is_list_ty t) || negb (ty_eqb oe (list_elem t)))
                      | _ => false end = false).
     { destruct t; try reflexivity. cbn. rewrite ty_eqb_refl. reflexivity. }
-    rewrite Hclash in Hrun. inversion Hrun; subst ps1. clear Hrun.
+    rewrite Hclash in Hrun. cbv beta iota in Hrun. rewrite Herr1 in Hrun. inversion Hrun; subst ps1. clear Hrun.
     cbn [p_fe p_ctx p_globals d_types d_decl d_promo st_ctx st_decls st_acc].
     split; [|split; [reflexivity | intros y c H; exact H]].
     constructor; cbn [p_fe p_ctx p_globals d_types d_decl d_promo].
@@ -212,7 +213,7 @@ Proof.
       * apply text_eqb_eq in Eyx. subst y. split; assumption.
       * apply Hdecl.
   - (* new name: declared now, from this label *)
-    destruct Hdx as [Hmem Hgl]. rewrite Hmem in Hrun. cbn [andb] in Hrun.
+    destruct Hdx as [Hmem Hgl]. rewrite Hmem in Hrun. cbv beta iota in Hrun. rewrite Herr1 in Hrun.
     inversion Hrun; subst ps1. clear Hrun.
     cbn [p_fe p_ctx p_globals d_types d_decl d_promo st_ctx st_decls st_acc].
     split; [|split; [reflexivity | intros y c H; apply tlookup_app_some; exact H]].
